@@ -437,7 +437,8 @@ class PoolWorld:
 
     def abstract_state(self):
         st = tuple(sorted(s.name for s in self.sched.task_states.values()))
-        return (st, len(self.table.live()), self.sched.cores_ressource._value)
+        sem = getattr(self.sched, "cores_ressource", None)
+        return (st, len(self.table.live()), getattr(sem, "_value", None))
 
     def step(self):
         self.loop.step()
